@@ -211,6 +211,90 @@ def make_container(shape, parts, S):
 
 
 # ---------------------------------------------------------------------------------------------
+# scores whose flat part list was edited after construction (sub-space `edited-scores`).  The model of
+# a Score is the plain list of its parts (documented attribute `Score.parts`: "All Part objects"); an
+# edit is one of the list operations below, carried out through one of the public handles in EDIT_HOWS.
+
+# how an edit kind can be carried out: "item" = item access of the Score (`score[i] = part`),
+# "list" = in-place operation on the list `score.parts`, "rebind" = `score.parts = <new list>`
+EDIT_HOWS = {
+    "set": ("item", "list", "rebind"),
+    "swap": ("item", "list", "rebind"),
+    "append": ("list", "rebind"),
+    "insert": ("list", "rebind"),
+    "del": ("list", "rebind"),
+}
+
+
+def edit_ops(n, new):
+    """every single edit of a part list of length n, in a fixed order; `new` = number of a part that is
+    not (and never was) in the list.  The list never becomes empty and never holds a part twice."""
+    ops = [["set", i, new] for i in range(n)]
+    ops.append(["append", new])
+    ops += [["insert", i, new] for i in range(n)]
+    if n > 1:
+        ops += [["del", i] for i in range(n)]
+    ops += [["swap", i, j] for i in range(n) for j in range(i + 1, n)]
+    return ops
+
+
+def edit_adds(op):
+    return op[0] in ("set", "append", "insert")
+
+
+def apply_edit(lst, op):
+    """reference model: the list after the edit (new list)"""
+    out = list(lst)
+    k = op[0]
+    if k == "set":
+        out[op[1]] = op[2]
+    elif k == "append":
+        out.append(op[1])
+    elif k == "insert":
+        out.insert(op[1], op[2])
+    elif k == "del":
+        del out[op[1]]
+    elif k == "swap":
+        out[op[1]], out[op[2]] = out[op[2]], out[op[1]]
+    else:
+        raise ValueError(op)
+    return out
+
+
+def do_edit(score, op, how, pool):
+    """carry the edit out on a real Score (pool = the built Part objects by number)"""
+    k = op[0]
+    if how == "item":
+        if k == "set":
+            score[op[1]] = pool[op[2]]
+        elif k == "swap":
+            score[op[1]], score[op[2]] = score[op[2]], score[op[1]]
+        else:
+            raise ValueError((op, how))
+    elif how == "list":
+        ps = score.parts
+        if k == "set":
+            ps[op[1]] = pool[op[2]]
+        elif k == "append":
+            ps.append(pool[op[1]])
+        elif k == "insert":
+            ps.insert(op[1], pool[op[2]])
+        elif k == "del":
+            del ps[op[1]]
+        elif k == "swap":
+            ps[op[1]], ps[op[2]] = ps[op[2]], ps[op[1]]
+        else:
+            raise ValueError((op, how))
+    elif how == "rebind":
+        cur = list(score.parts)
+        pos = {id(p): i for i, p in enumerate(pool)}
+        nums = apply_edit([pos[id(p)] for p in cur], op)
+        score.parts = [pool[i] for i in nums]
+    else:
+        raise ValueError(how)
+
+
+# ---------------------------------------------------------------------------------------------
 # reference model
 
 
